@@ -171,6 +171,42 @@ def classify(op, a, b, impl, exp):
     return None
 
 
+# ------------------------------------------------------------------------------ one dimension, two float routes
+# (texts of the two operands, the exact exponent both denote, on which base)
+ROUTE_PAIRS = [('m^0.1 m^0.2', 'm^0.3', 'm', '3/10'), ('s^1.1 s^2.2', 's^3.3', 's', '33/10'), ('(mol^0.1)^3', 'mol^0.3', 'mol', '3/10'),
+               ('K^0.7/K^0.4', 'K^0.3', 'K', '3/10'), ('A^0.3', 'A^0.1 A^0.2', 'A', '3/10'), ('kg^0.6 kg^0.1', 'kg^0.7', 'kg', '7/10'),
+               # controls: the doubles coincide (dyadic parts; an integer total is snapped)
+               ('kg^0.5 kg^0.25', 'kg^0.75', 'kg', '3/4'), ('m^0.1 m^0.2 m^0.7', 'm', 'm', '1'), ('cd^1.5 cd^1.5', 'cd^3', 'cd', '3')]
+
+
+def route_operand_cases(ctx):
+    """two quantities of ONE dimension whose non-integer exponent was accumulated along different float routes
+    (0.1 + 0.2 = 0.30000000000000004 against the literal 0.3): same dimension by the definitions, so they add, compare and
+    convert.  Conversion does (it snaps the residue of the division); +, -, ==, <, has_units compare the exponent arrays with
+    exact == and refuse: recorded finding FU5 for exactly that class (the two doubles differ by less than the package's own
+    1e-7 threshold); anything else is a violation."""
+    from pgradd.Units import eval_qty
+    for ta, tb, base, e in ROUTE_PAIRS:
+        k = L.PRIMS.index(base)
+        want_dim = [float(Fraction(e)) if i == k else 0.0 for i in range(7)]
+        a2, b3, b2 = 2.0 * eval_qty(ta), 3.0 * eval_qty(tb), 2.0 * eval_qty(tb)
+        da, db = L.canon_value(a2).get('dim'), L.canon_value(b3).get('dim')
+        noisy = da is not None and db is not None and da != db and all(abs(x - y) < 1e-7 for x, y in zip(da, db))
+        cases = [('add', lambda: a2 + b3, {'val': 5.0, 'dim': want_dim}), ('sub', lambda: a2 - b3, {'val': -1.0, 'dim': want_dim}),
+                 ('lt', lambda: a2 < b3, {'bool': True}), ('ge', lambda: a2 >= b3, {'bool': False}),
+                 ('eq', lambda: a2 == b2, {'bool': True}), ('ne', lambda: a2 != b2, {'bool': False}),
+                 ('has_units', lambda: a2.has_units(tb), {'bool': True}), ('in_units', lambda: a2.in_units(tb), {'val': 2.0, 'dim': [0.0] * 7})]
+        for op, fn, exp in cases:
+            r = run_op(fn)
+            ctx.case(json.dumps(['route', op, ta, tb]), None)
+            ctx.count('route_operands')
+            if not agrees(r, exp):
+                ctx.violation('two quantities of one dimension (a non-integer exponent reached by different float routes) are not '
+                              'combined / compared as quantities of one dimension (%s)' % op,
+                              {'route_pair': [ta, tb], 'operation': op, 'exponent_by_definition': '%s^(%s)' % (base, e),
+                               'float_exponents': [da[k], db[k]]}, exp, r, finding='FU5' if (noisy and op != 'in_units') else None)
+
+
 def short_lived(obj, dim):
     from pgradd.Units import eval_qty
     if not any(dim):
@@ -230,6 +266,144 @@ def one_case(ctx, batch, op, fn, A, B, tag):
             what = 'equality of quantities of different dimension is not false'
         ctx.violation(what + ' (%s)' % op, inp, exp, r, finding=classify(op, A, B, r, exp))
     batch.append(({'op': 'c11.binop', 'operator': op, 'a': jq(a_si, a_dim, a_arr), 'b': jq(b_si, b_dim, b_arr)}, r, inp))
+
+
+# ------------------------------------------------------------------------------ augmented assignment
+# `a += b` (and -=, *=, /=, **=) on a quantity is the binary operator as far as the VALUE bound to the name afterwards goes:
+# same magnitudes, same dimension, same refusal.  Python lets a class update the object in place and return it, or return a new
+# object; both are fine, so the only demands on the object `a` named before are: if the statement returned it, it now holds the
+# result (trivially); if it returned another object, or raised, the old object still holds what it held (no half-made update,
+# and nothing the right operand can see changed either).
+IOPS = [('add', operator.iadd, operator.add), ('sub', operator.isub, operator.sub), ('mul', operator.imul, operator.mul),
+        ('div', operator.itruediv, operator.truediv), ('pow', operator.ipow, operator.pow)]
+
+
+def same_canon(x, y):
+    """two canonical outcomes describe the same value / the same refusal (bit-for-bit: nothing is recomputed between them)"""
+    def nn(o):
+        return json.dumps(o, sort_keys=True).replace('NaN', '"nan"')
+    return nn(x) == nn(y)
+
+
+def snapshot(obj):
+    import numpy as np
+    c = L.canon_value(obj)
+    if isinstance(obj, np.ndarray):
+        c = dict(c, type=type(obj).__name__)
+    return c
+
+
+def inplace_case(ctx, batch, op, mkA, mkB, tag):
+    """mkA(), mkB() build fresh operands (object, SI magnitudes, dims, is-array); the left one is a quantity"""
+    ifn, bfn = [(i, b) for o, i, b in IOPS if o == op][0]
+    a_obj, a_si, a_dim, a_arr = mkA()
+    b_obj, b_si, b_dim, b_arr = mkB()
+    if not any(a_dim):
+        return
+    alias, a0, b0 = a_obj, snapshot(a_obj), snapshot(b_obj)
+    box = {}
+
+    def stmt():
+        box['r'] = ifn(a_obj, b_obj)
+        return box['r']
+    r = run_op(stmt)
+    after_a, after_b = snapshot(alias), snapshot(b_obj)
+    binary = run_op(bfn, mkA()[0], mkB()[0])
+    exp = oracle(op, a_si, a_dim, a_arr, b_si, b_dim, b_arr)
+    inp = {'inplace': op, 'a': {'si': a_si, 'dim': a_dim, 'array': a_arr}, 'b': {'si': b_si, 'dim': b_dim, 'array': b_arr}, 'tag': tag}
+    ctx.case(json.dumps(['inplace', op, a_si, a_dim, a_arr, b_si, b_dim, b_arr]), None)
+    ctx.count('iop_' + op)
+    ctx.count('iop_shape_%s%s' % ('A' if a_arr else 's', 'A' if b_arr else 's' if any(b_dim) else 'n'))
+    ctx.count('iop_' + ('raises' if 'err' in r else 'in_place' if box.get('r') is alias else 'new_object'))
+    sc = scale_of({'op': op, 'a': {'si': a_si}, 'b': {'si': b_si}})
+    bad = None
+    if exp is not None and not agrees(r, exp, sc):
+        bad = ('augmented assignment on a quantity does not agree with the operation on SI magnitudes and dimensions'
+               if 'err' not in exp else 'augmented assignment combines operands of different dimension without the units error', exp)
+    elif not (agrees(r, binary, sc) if 'err' not in binary else r.get('err') == binary['err']):
+        bad = ('augmented assignment on a quantity does not give what the binary operator gives', binary)
+    elif box.get('r') is not alias and not same_canon(after_a, a0):
+        bad = ('augmented assignment did not return the left operand and yet changed it' if 'err' not in r else
+               'a refused augmented assignment changed its left operand', a0)
+    elif not same_canon(after_b, b0):
+        bad = ('augmented assignment changed its right operand', b0)
+    if bad:
+        ctx.violation('%s (%s=)' % (bad[0], {'add': '+', 'sub': '-', 'mul': '*', 'div': '/', 'pow': '**'}[op]), inp, bad[1],
+                      {'statement': r, 'left operand afterwards': after_a, 'right operand afterwards': after_b,
+                       'returned the left operand itself': box.get('r') is alias}, finding=classify(op, None, None, r, exp))
+    batch.append(({'op': 'c11.binop', 'operator': op, 'a': jq(a_si, a_dim, a_arr), 'b': jq(b_si, b_dim, b_arr)}, r, inp))
+
+
+def running_total(ctx, unit_a, unit_b, mags, array, sub=False):
+    """total = 0 [unit_a]; for x in mags: total += x [unit_b]  -- the accumulation idiom; the total is the sum of SI magnitudes"""
+    from pgradd.Units import eval_qty
+    import numpy as np
+    ua, ub = eval_qty(unit_a), eval_qty(unit_b)
+    total = (np.zeros(2) if array else 0.0) * ua
+    want = [0.0, 0.0] if array else [0.0]
+    dim = L.canon_value(ua)['dim']
+    steps = []
+    for x in mags:
+        term = (np.array([x, -x]) if array else float(x)) * ub
+        try:
+            import warnings
+            with warnings.catch_warnings():
+                warnings.simplefilter('ignore')
+                if sub:
+                    total -= term
+                else:
+                    total += term
+        except Exception as e:
+            steps.append({'err': L.errclass(e)})
+            break
+        tv = [x * ub.value, -x * ub.value] if array else [x * ub.value]
+        want = [w + (-t if sub else t) for w, t in zip(want, tv)]
+    r = canon(total)
+    exp = {'arr': want, 'dim': dim} if array else {'val': want[0], 'dim': dim}
+    inp = {'running_total': {'start_unit': unit_a, 'term_unit': unit_b, 'terms': list(mags), 'array': array, 'subtract': sub}}
+    ctx.case(json.dumps(inp), None)
+    ctx.count('iop_running_total')
+    if steps or not agrees(r, exp, sum(abs(x) for x in mags) * abs(ub.value)):
+        ctx.violation('a running total kept with %s on a quantity is not the sum of the SI magnitudes' % ('-=' if sub else '+='), inp, exp,
+                      steps[0] if steps else r)
+
+
+def inplace_cases(ctx, batch):
+    rng = ctx.rng
+    base = {'equal': [2.0, 5.0], 'smaller': [1.0, 5.0], 'negative': [-2.0, -0.5], 'zero': [0.0, 0.0]}
+    qkinds = [k for k in KINDS if k[1] is not None]
+    for (ka, ua, _) in qkinds:
+        for (kb, _, ub) in KINDS:
+            # every left kind against: its own kind (other unit), a plain number, the bare zero, and two other kinds
+            if not (kb == ka or ub is None or ctx.thorough() or rng.random() < 0.2):
+                continue
+            for a_arr, b_arr in [(False, False), (True, True), (True, False), (False, True)]:
+                for rel in base:
+                    if kb != ka and rel not in ('equal', 'zero'):
+                        continue
+                    for op, _, _ in IOPS:
+                        if op == 'pow' and rel != 'equal':
+                            continue
+                        mkA = lambda: make(ka, ua, base['equal'], a_arr) + (a_arr,)
+                        mkB = lambda: make(kb, ub, base[rel], b_arr) + (b_arr,)
+                        inplace_case(ctx, batch, op, mkA, mkB, '%s:%s:%s' % (ka, kb, rel))
+        # ** by plain exponents
+        for a_arr in (False, True):
+            for k in (2.0, -1.0, 0.0, 0.5, 1.0):
+                inplace_case(ctx, batch, 'pow', lambda: make(ka, ua, [2.0, 5.0], a_arr) + (a_arr,),
+                             lambda: (k, [k], [0.0] * 7, False), '%s:ipow' % ka)
+    for (k, ua, ub) in qkinds:
+        for array in (False, True):
+            for sub in (False, True):
+                running_total(ctx, ua, ub, [1.0, 2.5, -4.0, 0.0, 3.0], array, sub)
+    pool = [0.0, 1.0, -1.0, 2.5, 1e3, 1e-3, -7.25, 12.0, 0.5, 3.0]
+    for i in range(ctx.n(600, 40000)):
+        (ka, ua, _) = rng.choice(qkinds)
+        (kb, _, ub) = rng.choice(KINDS) if rng.random() < 0.4 else [k for k in KINDS if k[0] == ka][0]
+        a_arr, b_arr = rng.choice([(False, False), (True, True), (True, False), (False, True)])
+        ma, mb = [rng.choice(pool), rng.choice(pool)], [rng.choice(pool), rng.choice(pool)]
+        op = rng.choice(IOPS[:4])[0]
+        inplace_case(ctx, batch, op, lambda: make(ka, ua, ma, a_arr) + (a_arr,), lambda: make(kb, ub, mb, b_arr) + (b_arr,), 'random')
 
 
 # unit strings that differ only in their blanks and denote different dimensions (a blank is an implicit product)
@@ -402,6 +576,10 @@ def _run(ctx):
                 batch.append(({'op': 'c11.in_units', 'a': jq(a_si, a_dim, a_arr), 'b': jq([uc['val']], uc['dim'], False)}, r, inp))
     # construction of array quantities: ArrayQuantity(numbers, units=u) and ArrayQuantity([quantities]) are the numbers times u
     construction_cases(ctx)
+    # augmented assignment: += -= *= /= **= on scalar and array quantities, and running totals
+    inplace_cases(ctx, batch)
+    # one dimension written by two float routes
+    route_operand_cases(ctx)
     # random magnitudes on random pairs
     for i in range(ctx.n(3000, 200000)):
         (ka, ua, _), (kb, _, ub) = rng.choice(KINDS), rng.choice(KINDS)
@@ -478,6 +656,8 @@ def _replay(ctx, rec, batch):
     from pgradd.Units import Quantity, FundamentalUnits
     inp = rec.get('input', rec)
     before = len(ctx.violations)
+    if 'route_pair' in inp:
+        before += sum(k['count'] for k in ctx.known_seen.values())
 
     def build(o):
         prim = list(FundamentalUnits._primitive_units)
@@ -486,6 +666,23 @@ def _replay(ctx, rec, batch):
         if not any(o['dim']):
             return val
         return val * Quantity(1.0, FundamentalUnits(exps, np.zeros(len(prim), dtype=bool)))
+    if 'route_pair' in inp:
+        global ROUTE_PAIRS
+        keep, ROUTE_PAIRS = ROUTE_PAIRS, [p for p in ROUTE_PAIRS if [p[0], p[1]] == inp['route_pair']]
+        try:
+            route_operand_cases(ctx)
+        finally:
+            ROUTE_PAIRS = keep
+        return len(ctx.violations) + sum(k['count'] for k in ctx.known_seen.values()) == before
+    if 'running_total' in inp:
+        h = inp['running_total']
+        running_total(ctx, h['start_unit'], h['term_unit'], h['terms'], h['array'], h['subtract'])
+        return len(ctx.violations) == before
+    if 'inplace' in inp:
+        a, b = inp['a'], inp['b']
+        inplace_case(ctx, batch, inp['inplace'], lambda: (build(a), a['si'], a['dim'], a['array']),
+                     lambda: (build(b), b['si'], b['dim'], b['array']), 'replay')
+        return len(ctx.violations) == before
     if inp['op'] == 'construct':
         construction_case(ctx, inp['mags'], inp['units'], inp['how'])
         return len(ctx.violations) == before
